@@ -415,7 +415,7 @@ theorem readsAs_decRow (r : Row) : ReadsAs r (decRow r) := by
   | none => simp
   | some x =>
     simp only
-    refine ⟨trivial, trivial, trivial, trivial, ?_, ?_⟩
+    refine ⟨trivial, trivial, trivial, trivial, ?_, ?_, trivial⟩
     · intro b hb
       rw [mem_routes_filter]
       exact ⟨fun h => h.2, fun h => ⟨hb, h⟩⟩
